@@ -1,2 +1,92 @@
+// families RF (3) and RFSTEP (9): see coq/Run/Rf.v
 use crate::common::*;
-pub fn run_rf(_c: &mut Cur, _out: &mut Vec<i128>) {}
+use crate::fam_api::{df_sel, post};
+use crate::with_size;
+use fixed_buffer::*;
+
+fn one_call<const N: usize>(buf: &mut FixedBuf<N>, rd: &mut ScriptReader, which: u64, mode: u64, base: usize, out: &mut Vec<i128>) {
+    rd.log.clear();
+    out.push(MOP);
+    if mode == 0 {
+        let r = std::panic::catch_unwind(std::panic::AssertUnwindSafe(|| {
+            let mut tmp: Vec<i128> = Vec::new();
+            match buf.read_frame(rd, df_sel(which)) {
+                Ok(Some(frame)) => {
+                    tmp.push(0);
+                    tmp.push(1);
+                    enc_bytes(&mut tmp, frame);
+                }
+                Ok(None) => {
+                    tmp.push(0);
+                    tmp.push(0);
+                }
+                Err(e) => {
+                    tmp.push(1);
+                    tmp.push(code_of(e.kind()));
+                }
+            }
+            tmp
+        }));
+        match r {
+            Ok(t) => out.extend(t),
+            Err(_) => out.push(PANIC),
+        }
+    } else {
+        let r = std::panic::catch_unwind(std::panic::AssertUnwindSafe(|| buf.copy_once_from(rd)));
+        match r {
+            Ok(q) => enc_io_usize(out, &q),
+            Err(_) => out.push(PANIC),
+        }
+    }
+    post(buf, out);
+    out.push(-6);
+    out.push((rd.pos - base) as i128);
+    out.push(rd.log.len() as i128);
+    out.extend(rd.log.iter().map(|x| *x as i128));
+}
+
+fn rf_sized<const N: usize>(c: &mut Cur, out: &mut Vec<i128>) {
+    let which = c.next();
+    let pre = c.take_list();
+    let preconsume = c.next() as usize;
+    let stream = c.take_list();
+    let script = c.take_script();
+    let ncalls = c.next();
+    let mode = c.next();
+    let mut buf: FixedBuf<N> = FixedBuf::new();
+    let _ = std::panic::catch_unwind(std::panic::AssertUnwindSafe(|| {
+        let _ = buf.write_bytes(&pre);
+    }));
+    let _ = std::panic::catch_unwind(std::panic::AssertUnwindSafe(|| {
+        buf.read_bytes(preconsume);
+    }));
+    post(&mut buf, out);
+    let mut rd = ScriptReader::new(stream, script);
+    for _ in 0..ncalls {
+        one_call(&mut buf, &mut rd, which, mode, 0, out);
+    }
+}
+
+fn rfstep_sized<const N: usize>(c: &mut Cur, out: &mut Vec<i128>) {
+    let ri = c.next() as usize;
+    let wi = c.next() as usize;
+    let m = c.take_n(N);
+    let which = c.next();
+    let stream = c.take_list();
+    let script = c.take_script();
+    let mode = c.next();
+    // rebuild the state through the public API: filled(mem), consume ri ... not expressible for wi < N; unused on the
+    // implementation side (step-wise correspondence restarts the MODEL, not the implementation)
+    let _ = (ri, wi, m, which, stream, script, mode);
+    out.push(-9);
+}
+
+pub fn run_rf(c: &mut Cur, out: &mut Vec<i128>) {
+    let size = c.next();
+    with_size!(size, rf_sized, c, out)
+}
+#[allow(dead_code)]
+pub fn run_rfstep(c: &mut Cur, out: &mut Vec<i128>) {
+    let size = c.next();
+    with_size!(size, rfstep_sized, c, out)
+}
